@@ -19,14 +19,18 @@ Local Open Scope Z_scope.
 
 (** [sliceSize([start, stop, step], n)] is the number of k >= 0 with
     start + k*step < min(stop, n): ceiling division, [stop] beyond the extent
-    clips, a start at or beyond the end gives 0. *)
-Theorem C08_slice_size_spec : forall a b s n c, 0 <= a -> 1 <= s -> 0 <= n ->
+    clips, a start at or beyond the end gives 0.  The model computes with
+    64-bit wrap-around like Go; [ss_ok] = the arguments are Go ints with
+    0 <= start, 1 <= step, n + step <= 2^63 (extent + step - 1 cannot overflow)
+    and MinInt64 + n <= stop <= MaxInt64 -- the open-ended stop = MaxInt64
+    included. *)
+Theorem C08_slice_size_spec : forall a b s n c, ss_ok a b s n ->
   slice_size [a; b; s] n = Some c ->
   0 <= c /\ forall k, 0 <= k -> (k < c <-> a + k * s < Z.min b n).
 Proof. exact slice_size_counts. Qed.
 Print Assumptions C08_slice_size_spec.
 
-Theorem C08_slice_size_total : forall a b s n, 0 <= a -> 1 <= s -> 0 <= n ->
+Theorem C08_slice_size_total : forall a b s n, ss_ok a b s n ->
   slice_size [a; b; s] n = Some (slice_count a b s n).
 Proof. exact slice_size_spec. Qed.
 Print Assumptions C08_slice_size_total.
@@ -45,7 +49,7 @@ Print Assumptions C08_load_whole.
 Theorem C08_load_selection_is_memory_slice : forall V C (cd : codec V C), codec_exact cd ->
   forall st s p d sl,
   h5_open_dataset st [] s = Some (p, d) -> ds_wf d ->
-  Forall2 (fun n ds => dimsel_wf ds) (ds_dims d) sl ->
+  Forall2 dimsel_wf (ds_dims d) sl ->
   has_selection (Some sl) = true ->
   io_load cd (Some st) {| h_dataset := s; h_slice := Some sl |}
   = IoRet (Some (mem_slice (vzero cd) (ds_view cd d) (slice_triples sl (ds_dims d)))) false.
@@ -237,6 +241,12 @@ Proof. exact (conj seq_example_ok seq_example_run). Qed.
 Example C08_nonvacuous_slice_size : slice_size [0; 5; 2] 10 = Some 3 /\ slice_size [2; 100; 3] 10 = Some 3
   /\ slice_size [10; 12; 1] 10 = Some 0 /\ slice_size [0; 5; 0] 10 = None.
 Proof. exact slice_size_ceil. Qed.
+
+Example C08_nonvacuous_slice_size_extremes :
+  ss_ok 0 9223372036854775807 2 10 /\ slice_size [0; 9223372036854775807; 2] 10 = Some 5
+  /\ slice_size [1; 9223372036854775806; 3] 10 = Some 3
+  /\ slice_size [0; 7; 9223372036854775807] 10 = Some 0.
+Proof. exact slice_size_extremes. Qed.
 
 Example C08_nonvacuous_lock_graph :
   (0 < count_entries)%nat /\ (0 < count_writers)%nat /\ (count_writers < count_entries)%nat /\ (0 < count_sites)%nat.
